@@ -137,6 +137,13 @@ func timerKey(name string, key string) string {
 	return strconv.Itoa(len(name)) + ":" + name + key
 }
 
+// PrepareShutdown marks the lock server as shutting down. It must be called before network
+// listeners are stopped so that the sessions they end do not clear their locks (and with them the
+// state file) as though the clients had disconnected.
+func (l *LockServer) PrepareShutdown() {
+	l.isShutdown.Store(true)
+}
+
 // Lock blocks until the lock is obtained or is canceled / timed out by context
 func (l *LockServer) Lock(ctx context.Context, name string, size *int32, lockTimeoutSeconds *int32, waitTimeoutSeconds *int32) (*Lock, error) {
 	sessionId, ok := l.SessionId(ctx)
